@@ -51,7 +51,8 @@ def frame_writes(ctx, u):
     """(stmt/call node, base expr, key expr or None, kind) for writes whose
     base is rooted at a scope variable"""
     out = []
-    scope_names = {'scope', 'parent', 'pmap', 'cur_scope', 'nxt_in_chain'}
+    from ..util import scope_vars
+    scope_names = scope_vars(ctx.program, u)
     for n in u.own_nodes():
         if isinstance(n, (ast.Assign, ast.AugAssign)):
             tg = n.targets if isinstance(n, ast.Assign) else [n.target]
@@ -411,6 +412,9 @@ def ref(ctx):
 @rule('C07.8')
 def binders_pass_through(ctx):
     p = ctx.program
+    from .c01 import model
+    m, _w = model(ctx)
+    root = m.root_var
     # S(k=spec): scope.update({k: arg_val(target, v, scope)...}); return target
     u = ctx.unit('core._t_eval')
     cfg = ctx.cfg(u)
@@ -427,7 +431,7 @@ def binders_pass_through(ctx):
     ok = len(nxt) == 1 and isinstance(nxt[0].ast, ast.Return) and is_name(nxt[0].ast.value, target)
     ctx.ob(ok, u, 'S(...) passes the target through: %s' % (norm(nxt[0].ast) if nxt else None))
     g = [x for x in ancestors(up) if isinstance(x, ast.If)]
-    ok = bool(g) and 'root is S' in norm(g[0].test) and "== '('" in norm(g[0].test)
+    ok = bool(g) and ('%s is S' % root) in norm(g[0].test) and "== '('" in norm(g[0].test)
     ctx.ob(ok, u, 'the binding form applies to S(...) as the first step only: %s' % (norm(g[0].test) if g else None))
     # A: assignment then return target; on the scope itself always setitem
     asg = [c for c in calls_in(u) if callee_qual(p, u, c) == 'core._assign_op']
@@ -440,7 +444,7 @@ def binders_pass_through(ctx):
     ok = len(nxt) == 1 and isinstance(nxt[0].ast, ast.Return) and is_name(nxt[0].ast.value, target)
     ctx.ob(ok, u, 'A passes the target through: %s' % (norm(nxt[0].ast) if nxt else None))
     g = [x for x in ancestors(asg[0]) if isinstance(x, ast.If)]
-    ok = bool(g) and norm(g[0].test) == 'root is A'
+    ok = bool(g) and norm(g[0].test) == '%s is A' % root
     ctx.ob(ok, u, 'assignment happens exactly for root A')
     forced = [n for n in u.own_nodes() if isinstance(n, ast.If) and isinstance(n.test, ast.Compare)
               and isinstance(n.test.ops[0], ast.Is) and is_name(n.test.comparators[0], scope)]
